@@ -324,7 +324,15 @@ def gate_edges(crate, b, fp):
             force_zero_edges.append((sb, zero[0]))
         elif calls_allow(crate, b, sl):
             allow_edges.append((sb, nz))
-    # jump-threaded blocks: `_x = const true` reached only through a force edge
+    # no limiter at all (`rate_limiter: Option<RateLimiter>` is None: a TermLike target without a refresh rate) = always allowed:
+    # the None edge of a test on such an Option counts as an allow edge (`.map_or(true, |r| r.allow(now))` spelled as a match)
+    for sb, t, pl, d in K.discr_switches(b):
+        ty = pl.get("ty", "") or ""
+        if K.head_of_type(ty) != "std::option::Option" or "RateLimiter" not in ty:
+            continue
+        for tgt, vs in K.edge_variants(crate, t, "std::option::Option").items():
+            if vs == {"None"}:
+                allow_edges.append((sb, tgt))
     return force_edges, allow_edges, force_zero_edges
 
 
@@ -1509,6 +1517,49 @@ def rule_counted_newline_row_followed(ctx, crate, rule="R-FRAME-ENDS-ON-COUNTED-
                   "nothing left to paint): the cursor is left one row below the counted region, so every clear()/suspend() moves the region down one row "
                   "and the erase wipes a row that never belonged to it", cfg)
     ctx.extra.setdefault("counted_padding_sites", {})[cfg] = n
+
+
+def rule_overwrite_covers_row(ctx, crate, rule="R-OVERWRITE-COVERS-ROW"):
+    """"no remnant of any earlier frame": the erase phase has a branch that does not clear the old rows (move-cursor mode: go up,
+    carriage return, overwrite). In that mode a line that is shorter than what its row showed before leaves the tail of the old
+    content on the row ("done" over "working very hard" reads "doneing very hard") unless the paint routine blanks the rest of
+    the row. The last line gets the end-of-frame filler (R-PAINTED-LINE-TERMINATED); every *other* line is followed by the
+    newline written in front of the next line - so whenever an overwrite branch exists, that newline write carries a run of
+    blanks (`" ".repeat(n)`) whose length derives from the measured width of a line. Decided: the structure (an overwrite branch
+    exists => every in-loop newline write carries such a run); not the value of n."""
+    cfg = crate.config
+    info = emitter_commit_info(ctx, crate, rule)
+    if not info:
+        return
+    pb, p, commits, acc = info
+    paints = line_paint_calls(pb)
+    if not paints:
+        ctx.lost(rule, cfg, "no per-line paint call in the paint routine")
+        return
+    clears = tl_calls(pb, "clear_line")
+    clear_loops = set()
+    for c in clears:
+        clear_loops |= {c.bb} | {y for y in pb.reach_after(c.bb) if c.bb in pb.reach_after(y)}
+    overwrite = any(c.bb in pb.reach([0], avoid=clear_loops) for c in paints) and bool(clears) and \
+        any(x.bb in pb.reach([0], avoid=clear_loops) for x in tl_calls(pb, "move_cursor_up", "move_cursor_left") + [k for k in tl_calls(pb, "write_str") if pb.slice_args(k, [1], through_calls=False).consts() & {"\r"}])
+    ctx.extra.setdefault("overwrite_branch", {})[cfg] = bool(overwrite)
+    if not overwrite:
+        ctx.check(True, rule, "no-overwrite-branch", pb.name, K.fn_loc(pb), "every erase path clears the old rows", "", cfg)
+        return
+    n = 0
+    for c in paints:
+        loop = {c.bb} | {y for y in pb.reach_after(c.bb) if c.bb in pb.reach_after(y)}
+        for w in tl_calls(pb, "write_line"):
+            if w.bb not in loop or len(w.args) < 2:
+                continue
+            sl = pb.slice_args(w, [1])
+            blank = sl.has_call(r"(alloc|std|core)::str::<impl str>::repeat") and sl.has_call(r"draw_target::LineType::console_width", r"console::measure_text_width", r"draw_target::LineType::wrapped_height")
+            n += 1
+            ctx.check(blank, rule, "newline-blanks-row#%d" % (n - 1), pb.name, w.loc(),
+                      "the newline between two painted lines blanks the rest of the row it leaves",
+                      "an erase branch overwrites the old rows without clearing them (move-cursor mode), but a painted line that is not the last one is followed by a bare newline: "
+                      "a line shorter than the row's previous content leaves its tail on screen - `finish_with_message(\"done\")` over \"working very hard\" reads \"doneing very hard\"", cfg)
+    ctx.floor(rule, n, 1, cfg, "newline writes between painted lines")
 
 
 def rule_render_unless_hidden(ctx, crate, rule="R-RENDER-UNLESS-HIDDEN"):
